@@ -30,6 +30,15 @@ CLAIMS["C02"] = dict(
          "Outside the model: I/O failures (ChkIO, exit 4 start-up errors), EXPECT filtering (C20), multi-pass repetition of warnings (totals are read per final pass).",
     ref="4.2")
 
+CLAIMS["C01"] = dict(
+    technique="Lean 4 proof (invariant 'recorded references agree with the table while no repass is requested'; lockstep simulation for the extra pass) + correspondence on pass counts/encoded references + independent resolution oracle on 5 targets + pass-cap search for non-termination",
+    text="Theorems C01_refs_final, C01_extra_pass, C01_fixpoint_at_exit hold for every program of the abstract multipass model (any labels/references/value-dependent sizes/padding) and every starting table: whenever the pass loop exits, every reference holds the final value and a further pass reproduces code and symbols. "
+         "Termination is NOT a theorem (sizes may oscillate): it is decided by search under a pass cap (hook H1); C01_finding_padding_livelock proves the pre-fix non-termination. "
+         "Real asl: pass counts and encoded references are compared with the model (6502 direct/absolute, 68000 padding), a marker/mini-decoder oracle checks that every reference encodes the address of its label on 6502/6809/68HC11/68000/8086, and generated + golden-corpus sources are re-assembled with one forced extra pass and compared byte-for-byte.",
+    note=TB + "Modelled, not verified: LookupSymbol (unknown => PC, Repass), SymbolAdder value comparison, LabelModify after InsertPadding, the pass loop (Model/Pass.lean). "
+         "Outside the model: EQU expressions, JmpErrors/-Y, the instruction encoders (sizes are abstract functions; the oracle's mini decoders cover lda/ldaa/jmp/bra/data words only). Partial: termination clause by search only.",
+    ref="4.1")
+
 NOT_YET = "not claimed yet in this round: model/theorems/correspondence under construction (see DESIGN.md section 8 build order)"
 
 
